@@ -64,6 +64,10 @@ def id_codec_symmetry(model: Model, run: Run) -> None:
             run.fail(Finding("N6-id-codec-symmetric", c if "pack writes" in problems[0] else tx.envelope.func, problems[0][:100],
                              f"{short(c)}: " + "; ".join(problems) + ": the ID a peer reads is not the ID the session handed out (or the other way round)", ""))
     run.floor("message envelopes compared for the ID codec", n, 9)
+    # ... and that writer has one implementation of the content octets (no unsigned shortcut for "small" ids)
+    from .c05 import may_raise
+    from .c07 import hand_built_integer_content
+    hand_built_integer_content(model, run, may_raise(model))
 
 
 def check(model: Model, run: Run) -> None:
